@@ -28,7 +28,7 @@ VARIABLES l, h, over
 tvars == <<vars, l, h, over>>
 
 Mark(n) == TLCSet(1, IF n > TLCGet(1) THEN n ELSE TLCGet(1))
-ToReq(o) == [kind |-> o.kind, n |-> o.n, patches |-> o.patches]
+ToReq(o) == [kind |-> o.kind, n |-> o.n, patches |-> o.patches, create |-> o.create = 1, seedm |-> o.seedm = 1]
 
 TraceInit == Init /\ l = 1 /\ h = 0 /\ over = FALSE /\ TLCSet(1, 1)
 
@@ -54,7 +54,7 @@ TrCell ==
   /\ Ev("cell")
   /\ LET p == Trace[l].p IN
        /\ Cell(p)
-       /\ rec[Head(todo[p])[1]].live
+       /\ rec[Head(todo[p])[1]].live \/ req[p].create
        /\ last'.p = p /\ last'.k = Trace[l].k
        /\ last'.was = (Trace[l].was = 1) /\ last'.now = (Trace[l].now = 1)
        /\ last'.ok = (Trace[l].ok = 1) /\ last'.after = Trace[l].left
@@ -94,7 +94,7 @@ TrReset ==
 
 Hidden ==
   /\ \E p \in Procs : \/ PreCount(p) \/ End(p) \/ Removed(p)
-                      \/ (Cell(p) /\ ~rec[Head(todo[p])[1]].live)
+                      \/ (Cell(p) /\ ~rec[Head(todo[p])[1]].live /\ ~req[p].create)
   /\ UNCHANGED <<l, h>>
 
 Step == TrReset \/ TrSeed \/ TrCall \/ TrCount \/ TrCell \/ TrSel \/ TrPatched \/ TrRet \/ TrPost \/ Hidden
